@@ -24,9 +24,9 @@ def search_products(chk, r):
                 chk.search_case("convolved_labels_are_products", ok, what=f"Mellin moment of {name} != product of moments", data=sample, sample=sample)
 
 
-def search_switch_off(chk, r, n, max_pto):
+def search_switch_off(chk, r, n, max_pto, only_pto=None):
     for _ in range(n):
-        pto = r.choice([p for p in (1, 2, 3) if p <= max_pto])
+        pto = only_pto or r.choice([p for p in (1, 2, 3) if p <= max_pto])
         process = r.choice(["EM", "NC", "CC"])
         kind = r.choice(cards.UNPOL)
         fl = r.choice(["light", "total"]) if pto > 1 else r.choice(["light", "total", "charm"])
@@ -78,6 +78,34 @@ def search_switch_off(chk, r, n, max_pto):
                 chk.search_case("ren_terms_vs_central", d <= 1e-11 * max(s, 1e-300), what=f"{key} is not the beta-function combination of the central coefficients", data=sample, sample=sample, nontrivial=s > 0)
 
 
+def search_multi_nf(chk, r, n):
+    """one ZM-VFNS run across heavy-quark thresholds: the scale-variation entries of every point
+    must be those of its own nf (= those of its single-point run)"""
+    for _ in range(n):
+        kind = r.choice(cards.UNPOL)
+        process = r.choice(["EM", "NC", "CC"])
+        name = f"{kind}_{r.choice(['total', 'light'])}"
+        x = float(r.choice([0.05, 0.3]))
+        q2s = r.sample([1.5, 3.0, 30.0, 300.0], 3)
+        kw = dict(prDIS=process, interpolation_xgrid=cards.default_grid(8))
+        th = cards.theory(PTO=1, FNS="ZM-VFNS", Q0=1.0)
+        try:
+            big = realrun.run(th, cards.obs({name: [dict(x=x, Q2=float(q)) for q in q2s]}, **kw))[name]
+            singles = [realrun.run(th, cards.obs({name: [dict(x=x, Q2=float(q))]}, **kw))[name][0] for q in q2s]
+        except Exception as e:
+            chk.extra.setdefault("search_exceptions", {})
+            k = f"multi-nf:{type(e).__name__}:{str(e)[:80]}"
+            chk.extra["search_exceptions"][k] = chk.extra["search_exceptions"].get(k, 0) + 1
+            continue
+        bad = []
+        for q, a, b in zip(q2s, big, singles):
+            for k in b.orders:
+                if (k[2] > 0 or k[3] > 0) and not np.array_equal(np.asarray(a.orders[k][0]), np.asarray(b.orders[k][0])):
+                    bad.append(f"Q2={q} key {k}")
+        sample = dict(obs=name, process=process, x=x, Q2s=q2s, differing=bad[:6])
+        chk.search_case("sv_terms_use_point_nf", not bad, what="scale-variation entries depend on the other points of the run: " + ", ".join(bad[:3]), data=sample, sample=sample)
+
+
 def run(tier):
     chk = common.Check("C05", tier)
     thorough = tier == "thorough"
@@ -85,7 +113,10 @@ def run(tier):
     r = common.rng("C05")
     corr_sv.run_sv(chk, 600 if thorough else 60, r)
     search_products(chk, r)
+    search_multi_nf(chk, r, 12 if thorough else 2)
     search_switch_off(chk, r, 40 if thorough else 5, 3 if thorough else 2)
+    if not thorough:
+        search_switch_off(chk, common.rng('C05-n3lo'), 1, 3, only_pto=3)
     chk.assumptions += [
         "RGE theorem is over an arbitrary commutative Q-algebra (the convolution algebra); that 'P_qq_0^2', 'P_qg_0P_gq_0', ... are the products of their factors is a hypothesis (structure Products), checked on Mellin moments of the real kernels each run; their x-space local terms are C03's obligation",
         "how the seven sector operators recombine into quark-singlet/gluon components (actS) is eko's projector algebra: taken from eko, exercised by the compute_local correspondence with eko's real projectors",
